@@ -336,9 +336,9 @@ func c15CheckState(got c15Elem, want c15Input, prefix string, deep bool) (string
 // c15EvalAt runs every single-instant oracle on (in, t).
 func c15EvalAt(in c15Input, t c15T, count c15Counter) (fails []c15Fail) {
 	k := "C15/" + in.kind()
-	tt := t.time(0)
+	tt := t.time(c15QueryZone(t))
 	fail := func(key, what string, extra map[string]any) {
-		d := map[string]any{"input": in.describe(), "t": t.String()}
+		d := map[string]any{"input": in.describe(), "t": t.String(), "t_zone_east_s": c15QueryZone(t)}
 		for a, b := range extra {
 			d[a] = b
 		}
@@ -483,7 +483,7 @@ func c15EvalPair(in c15Input, t1, t2 c15T, count c15Counter) (fails []c15Fail) {
 	}
 	e := in.build()
 	for _, t := range []c15T{t1, t2} {
-		if err, pan := c15Call(e, t.time(0)); err != nil || pan != nil {
+		if err, pan := c15Call(e, t.time(c15QueryZone(t))); err != nil || pan != nil {
 			fail(k+"/compose/error", fmt.Sprintf("ApplyUpdatesUpTo(%s) in a two-step application failed: %v %v", t, err, pan))
 			return
 		}
@@ -510,7 +510,7 @@ func c15EvalPair(in c15Input, t1, t2 c15T, count c15Counter) (fails []c15Fail) {
 	}
 	count("compose_pairs_asserted")
 	d := in.build()
-	if err, pan := c15Call(d, t2.time(0)); err != nil || pan != nil {
+	if err, pan := c15Call(d, t2.time(c15QueryZone(t2))); err != nil || pan != nil {
 		return // reported by the single-instant oracle
 	}
 	cs, us := c15Extract(d)
@@ -565,10 +565,41 @@ func c15Shrink(in c15Input, key string, eval func(c15Input) []c15Fail) (c15Input
 
 // ---- instants ---------------------------------------------------------------------------
 
-// c15Instants lists every distinct instant class of an update list: the zero time, just
-// below the first timestamp, every timestamp, a point strictly between neighbours, just
-// above the last one and the far future.
-func c15Instants(us []c15Upd) (ts []c15T, pos []string) {
+// Extreme instants: the zero time / year 1, both ends of the int64-nanosecond range
+// (1677-09-21T00:12:43.145224192Z and 2262-04-11T23:47:16.854775807Z) with their 1 ns
+// neighbours, year 9999 and time.Unix(+-1<<40, 0). They stand for "latest state" sentinels
+// and uninitialised times; the reference orders them like any other (sec, nsec) pair.
+var (
+	c15MaxNs = c15T{Sec: 9223372036, Nsec: 854775807}
+	c15MinNs = c15T{Sec: -9223372037, Nsec: 145224192}
+	// short list: one representative per region
+	c15ExtremeShort = []c15T{c15ZeroT, {Sec: -(1 << 40)}, c15MinNs.add(-1), c15MaxNs.add(1), {Sec: 253402300799, Nsec: 999999999}, {Sec: 1 << 40}}
+	c15ExtremeFull  = append([]c15T{
+		{Sec: c15ZeroT.Sec + 86400*200}, // inside year 1
+		c15MinNs, c15MinNs.add(1), c15MaxNs, c15MaxNs.add(-1),
+		{Sec: -9214560000},  // 1678-01-01
+		{Sec: 9246182400},   // 2263-01-01
+		{Sec: 253370764800}, // 9999-01-01
+	}, c15ExtremeShort...)
+)
+
+// c15QueryZone picks the location in which a query instant is handed to the library
+// (a function of the instant only, so that a replay sees the same time.Time).
+func c15QueryZone(t c15T) int {
+	switch (t.Sec%3 + t.Nsec%3 + 6) % 3 {
+	case 1:
+		return 5*3600 + 1800
+	case 2:
+		return -8 * 3600
+	}
+	return 0
+}
+
+// c15Instants lists every distinct instant class of an update list: just below the first
+// timestamp, every timestamp, a point strictly between neighbours, just above the last one,
+// the year 2100, and the extreme instants (short or full list). Sorted ascending; pos gives
+// the position relative to the stored timestamps, prefixed with x for an extreme instant.
+func c15Instants(us []c15Upd, extremes []c15T) (ts []c15T, pos []string) {
 	var d []c15T
 	seen := map[c15T]bool{}
 	for _, u := range us {
@@ -578,27 +609,53 @@ func c15Instants(us []c15Upd) (ts []c15T, pos []string) {
 		}
 	}
 	sort.Slice(d, func(i, j int) bool { return d[i].less(d[j]) })
-	add := func(t c15T, p string) { ts, pos = append(ts, t), append(pos, p) }
-	add(c15ZeroT, "below")
-	if len(d) == 0 {
-		add(c15OfTime(c15Stamp), "above")
-		return
-	}
-	add(d[0].add(-1), "below")
-	for i, x := range d {
-		add(x, "at")
-		if i+1 < len(d) {
-			mid := c15T{x.Sec + (d[i+1].Sec-x.Sec)/2, x.Nsec}
-			if !(x.less(mid) && mid.less(d[i+1])) {
-				mid = x.add(1)
-			}
-			if x.less(mid) && mid.less(d[i+1]) {
-				add(mid, "between")
-			}
+	extreme := map[c15T]bool{}
+	have := map[c15T]bool{}
+	add := func(t c15T) {
+		if !have[t] {
+			have[t] = true
+			ts = append(ts, t)
 		}
 	}
-	add(d[len(d)-1].add(1), "above")
-	add(c15T{Sec: 4102444800}, "above") // 2100-01-01
+	if len(d) == 0 {
+		add(c15OfTime(c15Stamp))
+	} else {
+		add(d[0].add(-1))
+		for i, x := range d {
+			add(x)
+			if i+1 < len(d) {
+				mid := c15T{x.Sec + (d[i+1].Sec-x.Sec)/2, x.Nsec}
+				if !(x.less(mid) && mid.less(d[i+1])) {
+					mid = x.add(1)
+				}
+				if x.less(mid) && mid.less(d[i+1]) {
+					add(mid)
+				}
+			}
+		}
+		add(d[len(d)-1].add(1))
+	}
+	add(c15T{Sec: 4102444800}) // 2100-01-01
+	for _, t := range extremes {
+		extreme[t] = true
+		add(t)
+	}
+	sort.Slice(ts, func(i, j int) bool { return ts[i].less(ts[j]) })
+	for _, t := range ts {
+		p := "between"
+		switch {
+		case seen[t]:
+			p = "at"
+		case len(d) == 0 || d[len(d)-1].less(t):
+			p = "above"
+		case t.less(d[0]):
+			p = "below"
+		}
+		if extreme[t] {
+			p = "x" + p
+		}
+		pos = append(pos, p)
+	}
 	return
 }
 
@@ -661,6 +718,11 @@ func c15Gen(r *gen.R) (children []c15Child, ups []c15Upd, ann string) {
 			}
 		}
 		times = append(times, t)
+	}
+	if r.Chance(0.2) { // extreme update timestamps (sentinels, uninitialised times)
+		for i, k := 0, r.Range(1, 3); i < k; i++ {
+			times[r.Intn(len(times))] = c15ExtremeFull[r.Intn(len(c15ExtremeFull))]
+		}
 	}
 	focus := -1
 	if n > 0 && r.Chance(0.3) {
@@ -789,11 +851,9 @@ func (x *c15Run) consumer(rings []c15Input, roles []string, order string) {
 	for _, in := range rings {
 		all = append(all, in.Updates...)
 	}
-	ts, pos := c15Instants(all)
+	// only extremes after the ways exist: year 9999 and time.Unix(1<<40, 0) as "latest" sentinels
+	ts, pos := c15Instants(all, []c15T{{Sec: 253402300799, Nsec: 999999999}, {Sec: 1 << 40}})
 	for i, t := range ts {
-		if i == 0 {
-			continue // zero time: before the ways exist
-		}
 		applied := make([]c15Input, len(rings))
 		stripped := make([]c15Input, len(rings))
 		lbi := false
@@ -852,11 +912,12 @@ func (x *c15Run) consumer(rings []c15Input, roles []string, order string) {
 // ---- driver -----------------------------------------------------------------------------
 
 type c15Run struct {
-	res     *fw.Result
-	sigs    map[string]bool
-	keys    map[string]bool
-	maxPair int
-	r       *gen.R
+	res      *fw.Result
+	sigs     map[string]bool
+	keys     map[string]bool
+	maxPair  int
+	extremes []c15T
+	r        *gen.R
 }
 
 func c15Class(n int, bounds ...int) string {
@@ -886,7 +947,7 @@ func (x *c15Run) report(in c15Input, fails []c15Fail, eval func(c15Input) []c15F
 // check runs all oracles on one stored input.
 func (x *c15Run) check(in c15Input, order, ann string) {
 	count := func(name string) { x.res.Add(name, 1) }
-	ts, pos := c15Instants(in.Updates)
+	ts, pos := c15Instants(in.Updates, x.extremes)
 	distinct := map[c15T]bool{}
 	for _, u := range in.Updates {
 		distinct[u.At] = true
@@ -992,6 +1053,7 @@ func c15Exec(c fw.Case) *fw.Result {
 	x := &c15Run{res: res, sigs: map[string]bool{}, keys: map[string]bool{}, maxPair: int(c.Int("maxpair")), r: gen.New(c.Seed, "c15pairs")}
 	switch c.Kind {
 	case "enum":
+		x.extremes = c15ExtremeShort
 		// every update list of length <= maxm over (index 0..n, three timestamps[, reverse]);
 		// index n is the out-of-range one. Seed independent.
 		n, maxm := int(c.Int("n")), int(c.Int("maxm"))
@@ -1075,6 +1137,7 @@ func c15Exec(c fw.Case) *fw.Result {
 			}
 		}
 	case "random":
+		x.extremes = c15ExtremeFull
 		r := gen.New(c.Seed, "c15")
 		for b := 0; b < int(c.Int("batch")); b++ {
 			children, bag, ann := c15Gen(r)
